@@ -168,6 +168,12 @@ def check(prop, tier, base_seed=None, workers=None, nruns=None, quiet=False):
     agg = aggregate(results)
     known = core.load_known()
     cross = cross_process_check(profile, prop, tier, base_seed, agg)
+    det = None
+    if tier == 'thorough' and not os.environ.get('VERIF_SKIP_DETERMINISM'):
+        # a thorough tier refuses to report "held" if its sampled determinism check fails
+        det = determinism_sample(prop, 'thorough', base_seed, 48)
+        if det['diffs'] or det['errors']:
+            errors.append('determinism sample failed: %r' % det)
     wall = time.time() - t0
 
     stats = agg['stats']
@@ -201,6 +207,7 @@ def check(prop, tier, base_seed=None, workers=None, nruns=None, quiet=False):
             components=profile.components,
             known_findings_hit=dict(agg['known_hits']),
             cross_process_groups_compared=cross,
+            determinism_sample=det,
             harness_errors=len(errors) + len(agg['harness_errors']),
         ),
         assumptions=profile.assumptions,
@@ -297,6 +304,23 @@ def replay(path, quiet=False):
     print('replay did NOT reproduce: got verdict=%s %s, recorded %s' % (
         res.verdict, res.violation and res.violation['signature'], want['signature']))
     return 0 if res.verdict == 'ok' else 2
+
+
+def determinism_sample(prop, tier, base_seed, n):
+    """n run seeds: twice in one interpreter, under another job split, under other hash seeds; digests must agree."""
+    ja = make_jobs(prop, tier, base_seed, n, 4, want_digests=True)
+    for j in ja:
+        j['twice'] = True
+    a, ea = run_jobs(ja, 4, 900)
+    ea = ea + [e['error'] for e in aggregate(a)['harness_errors'] if 'different digest' in e['error']]
+    jc = make_jobs(prop, tier, base_seed, n, 8, want_digests=True)
+    hs = core.hash_seeds_of(base_seed)
+    for j in jc:
+        j['hash_seed'] = hs[(hs.index(j['hash_seed']) + 1) % 4]
+    c, ec = run_jobs(jc, 8, 900)
+    da, dc = aggregate(a)['digests'], aggregate(c)['digests']
+    diffs = sorted(k for k in da if da[k] != dc.get(k))
+    return dict(seeds=n, diffs=len(diffs), errors=len(ea) + len(ec), first=diffs[:5])
 
 
 def selftest_determinism(props, nseeds=200, base_seed=0):
